@@ -80,7 +80,7 @@ def kind_of(engine) -> str:
 
 # names that no reasonable reading makes "known" (no case variants, no class names, no None)
 BAD = {"bad:foo": "foo", "bad:jax": "jax", "bad:sympy": "sympy", "bad:empty": "", "bad:tuple": ("numpy",), "bad:int": 3,
-       "bad:np": "np"}
+       "bad:np": "np", "bad:typo1": "nunpy", "bad:typo2": "cassadi"}
 KNOWN = {"numpy": ("sym_metanet.engines.numpy", "Engine"), "casadi": ("sym_metanet.engines.casadi", "Engine")}
 
 
@@ -100,6 +100,9 @@ def make_engine_x():
         @property
         def links(self):
             return LinksX
+
+        def __len__(self):  # e.g. a bookkeeping engine reporting how many calls it has logged: falsy
+            return 0
 
     return EngineX()
 
@@ -134,8 +137,13 @@ class Session:
             raise Violation("C13/selection-changed-behind-back", f"{where}: current engine is not the one last selected")
         parts = what.split(":")
         if parts[0] == "bad":
+            import warnings
+
             try:
-                r = M.engines.use(BAD[what])
+                with warnings.catch_warnings():
+                    if self.cfg.get("warnings_as_errors"):
+                        warnings.simplefilter("error")  # the caller runs with -W error
+                    r = M.engines.use(BAD[what])
             except M.EngineNotFoundError:
                 if M.engines.get_current_engine() is not before or M.engine is not before:
                     raise Violation("C13/bad-name-changed-selection", f"{where}: use({BAD[what]!r}) changed the selection")
@@ -614,6 +622,7 @@ def generate(prop: str, run_seed: int, tier: str = "quick") -> dict:
     if rng.random() < 0.6:
         enabled.add("interrupt")
     cfg = {"topology": topo, "enabled": sorted(enabled), "merging_ramp": dyn.has_merging_ramp(topo, U),
+           "warnings_as_errors": rng.random() < 0.3,
            "garbage": rng.choice(["rand", "randn", 3.25]) if "garbage" in enabled else "empty"}
     ops = []
     n = rng.randint(4, 10) if tier == "quick" else rng.randint(6, 16)
